@@ -337,7 +337,7 @@ pub fn plan(property: &str, quick: bool) -> Plan {
             parts.push(Part::Bfs(Box::new(super::life::c11_case_scn()), lim(if quick { 4 } else { 5 }, 2_000_000, if quick { 20.0 } else { 300.0 })));
             // simultaneous claims at every interleaving the runtime can produce (the password
             // check and the lock hand-over are scheduling points): the registration bursts of C18
-            for b in ["reg-race-2", "reg-race-2-user-first", "reg-race-2-password", "nick-vs-registration", "nick-race"] {
+            for b in ["reg-race-2", "reg-race-2-user-first", "reg-race-2-password", "nick-vs-registration", "nick-race", "kill-vs-reregistration"] {
                 let name = b.to_string();
                 parts.push(Part::Custom(format!("int:{}", b), Box::new(move || super::c18::burst_part(&name))));
             }
